@@ -373,16 +373,19 @@ def main(argv=None):
                 for m in re.finditer(r"^error: (\S+\.lean):(\d+):(\d+)", out, re.M):
                     broken.append("%s:%s" % (m.group(1), m.group(2)))
             tie_ok = False
+            tie_broken = []
             if tie:
                 tie_ok, tout, tcmd, _dt = lake_build(tie["props"] + ["PysamlModel.Model.PyEnc"])
                 checker_cmds.append(tcmd)
                 if not tie_ok:
                     log(tout[-4000:])
                     build_log += "\n" + tout
-                    broken.append("lake build %s failed (the regenerated term of %s no longer refines the model function)" % (
+                    tie_broken.append("lake build %s failed (the regenerated term of %s no longer refines the model function)" % (
                         " ".join(tie["props"]), "/".join(tie["functions"])))
                     for m in re.finditer(r"^error: (\S+\.lean):(\d+):(\d+)", tout, re.M):
-                        broken.append("%s:%s" % (m.group(1), m.group(2)))
+                        tie_broken.append("%s:%s" % (m.group(1), m.group(2)))
+                    if os.environ.get("VERIF_TIE_STRICT") == "1":
+                        broken.extend(tie_broken)
             # 3. audit
             hits, closure_files = grep_forbidden([mod.LEAN_PROPS] + (tie["props"] if tie else []))
             if hits:
@@ -420,7 +423,10 @@ def main(argv=None):
                         log(cout)
                         broken.append("leanchecker rejected " + mod.LEAN_PROPS)
 
-    obligations = obligations + tie_obl
+    if args.no_build:
+        tie_broken = []
+    if not tie_broken:
+        obligations = obligations + tie_obl
     discharged = 0 if broken else len(obligations) + len(extra_obl)
 
     # 4. cases
@@ -450,7 +456,7 @@ def main(argv=None):
         if broken and hasattr(mod, "search_cases"):
             for c in mod.search_cases(rng, broken, build_log):
                 add(c)
-        if broken and tie:
+        if (broken or tie_broken) and tie:
             # the regenerated term no longer refines the model function: arguments on which the two differ, as cases of
             # this property's own check, so that the violation can be shown on the real service provider
             for c in pytie.search_cases(pid, rng, run_driver):
@@ -486,12 +492,26 @@ def main(argv=None):
             tie_info = {"functions": tie["functions"], "theorems": tie_obl, "cases": tres["cases"],
                         "interp_vs_cpython_disagreements": len(tres["interp_vs_cpython"]),
                         "interp_vs_model_disagreements": len(tres["interp_vs_model"]), "outcomes": tres["outcomes"]}
-            if tres["interp_vs_cpython"]:
+            tie_info["cpython_vs_model_disagreements"] = len(tres["cpython_vs_model"])
+            if tie_broken:
+                # The translator tie is one of TWO ties; the other is the correspondence check.  A rewrite of a tied
+                # function that the refinement proof does not survive degrades the tie to the correspondence: the real
+                # function is compared with the hand-written model function directly (no interpreter), next to the
+                # property's own correspondence run.  Only a disagreement there makes it a broken obligation.
+                tie_info["degraded"] = True
+                tie_info["broken"] = tie_broken
+                if tres["cpython_vs_model"]:
+                    log("translator tie broken and the real function differs from the model function on %d of %d calls; first: %s" % (
+                        len(tres["cpython_vs_model"]), tres["cases"], json.dumps(tres["cpython_vs_model"][0])[:800]))
+                    broken.extend(tie_broken)
+                    broken.append("real function vs model function (Drivers/PyFuns.lean `model`) on %s" % "/".join(tie["functions"]))
+                    save_replay(pid, "pytie_cpython_vs_model", {"property": pid, "cases": tres["cpython_vs_model"][:20]})
+            elif tres["interp_vs_cpython"]:
                 log("translator tie: the MiniPy interpreter and CPython disagree on %d of %d calls; first: %s" % (
                     len(tres["interp_vs_cpython"]), tres["cases"], json.dumps(tres["interp_vs_cpython"][0])[:800]))
                 broken.append("translator tie: interpreter (Drivers/PyFuns.lean) vs CPython on %s" % "/".join(tie["functions"]))
                 save_replay(pid, "pytie_interp_vs_cpython", {"property": pid, "cases": tres["interp_vs_cpython"][:20]})
-            if tres["interp_vs_model"] and not any("refines" in b for b in broken):
+            if tres["interp_vs_model"] and not tie_broken and not any("refines" in b for b in broken):
                 broken.append("translator tie: regenerated term vs model function differ although the theorem built")
         except DriverError as e:
             log(str(e))
@@ -567,6 +587,11 @@ def main(argv=None):
             log("broken obligations: %s" % broken)
         log("VIOLATION property=%s replay=%s no-failing-input-found" % (pid, path))
 
+    if tie_broken and rc == 0:
+        log("TIE-DEGRADED property=%s the regenerated term of %s no longer refines the model function (%s); the model is "
+            "still tied to the code by the correspondence check: real function vs model function on %d calls and %d cases of "
+            "the property's own run agree (VERIF_TIE_STRICT=1 makes this a broken obligation)" % (
+                pid, "/".join(tie["functions"]), "; ".join(tie_broken[:3]), tie_info.get("cases", 0), len(recs)))
     write_evidence(pid, tier, seed, mod, recs, obligations, extra_obl, discharged, checker_cmds, axioms, t0,
                    len(violations) + (1 if (rc and not violations) else 0), sorted(known_hits), translate_info, broken,
                    closure_files, n_corpus, tie_info)
